@@ -48,7 +48,7 @@ PROPS["C15"] = dict(
                 "the code, and is not claimed). The frame of F, E, D, Pi, G, H(sn, cn, dn) is odd in sn and reflects about pi/2 for every kernel even in sn, cn (the six "
                 "Carlson kernels are); the periodic parts delta* have period pi for every X whatsoever; X(phi + pi) = X(phi) + 2 X() for every phi through all four "
                 "branch combinations of the period handling, for every kernel with values in [0, 2X()]; Ed: a turn adds 4E; Einv(x + 2E) = Einv(x) + pi, its reduced "
-                "argument lies in [-E, E), when the Newton loop ends the last iterate satisfies |E(phi) - x| <= tolJAC Delta(phi) and a fixed point is a solution; "
+                "argument lies in [-E, E), when the Newton loop ends the last iterate satisfies |E(phi) - x| <= tolJAC min(1, |result|) Delta(phi) (relative stopping test of /repo 84b53d7) and a fixed point is a solution; "
                 "deltaEinv has period pi. AuxAngle: normalized() is the unit vector of the same direction, copyquadrant, += is angle addition and the identity for "
                 "zero tangent, radians/lam/lamd invert their static counterparts, degrees() (atan2d with its octant reduction) is the argument in every octant. "
                 "AuxLatitude: the constructor's parameters, axes(a, b) = (a, (a-b)/a) member by member, tan beta = (1-f) tan phi, tan theta = (1-f)^2 tan phi, exact "
@@ -72,8 +72,8 @@ PROPS["C15"] = dict(
                 "tolerances, trip caps, num_ (EllipticFunction.cpp/.hpp) regenerated each run; hand-written models of EllipticFunction, AuxAngle, AuxLatitude (series and "
                 "exact), Ellipsoid; Math::sincosd/sind/AngNormalize are not modelled here (C16): the degree interfaces take their values from the implementation; "
                 "the signbit(_kp2) branch of sncndn is unreachable (Reset rejects kp2 < 0) and not modelled; harness oracles in x87 long double / __float128 "
-                "(libquadmath), independent of the library; open findings F38, F40, F41, F42(rest) (accuracy losses in stated argument classes, NaN for denormal / "
-                "near-overflow tangents) are printed as KNOWN-FINDING"),
+                "(libquadmath), independent of the library; open findings F38, F38b, F40, F41 (am only; the Einv half was repaired by /repo 84b53d7 = F93 and the model follows), F42(rest) "
+                "(accuracy losses in stated argument classes, NaN for denormal / near-overflow tangents) are printed as KNOWN-FINDING"),
     technique=("Lean 4: series-CAS certificates (decide +kernel) for the extracted tables, exact-real theorems (induction over loop budgets and AGM stacks) on executable "
                "polymorphic models, execution of the same models in running-error arithmetic against the implementation, quadrature-oracle correspondence"),
     assumptions=["the closed forms / differential equations used as specifications of the latitudes are the textbook definitions (Karney 2024, eqs. for beta, theta, mu, chi, xi)",
